@@ -107,7 +107,7 @@ def _on_instruction(code, offset):
     if s is None:
         return None
     i = s._ident2idx.get(_thr.get_ident())
-    if i is None:
+    if i is None or s.aborting:      # aborting: the thread is unwinding, no longer under the baton
         return None
     pts = _POINTS.get(code, False)
     if pts is False:
@@ -213,6 +213,8 @@ class SchedLock:
             if not blocking:
                 return False
             raise HarnessError("uncontrolled thread would block on a SchedLock (self-deadlock)")
+        if s.aborting:
+            return True
         s.lock_ops += 1
         while self.owner is not None:
             if self.reentrant and self.owner == me:
@@ -498,9 +500,9 @@ def count_preemptions(ex):
     return ex.preemptions
 
 
-def _children(ex, bound, rng=None):
+def _children(ex, bound, rng=None, min_step=0):
     """Deviation lists extending ``ex.deviations`` by one later deviation, within the preemption bound."""
-    last = ex.deviations[-1][0] if ex.deviations else -1
+    last = max(ex.deviations[-1][0] if ex.deviations else -1, min_step - 1)
     out = []
     base = ex.preemptions
     for st in range(last + 1, ex.nsteps):
@@ -519,11 +521,13 @@ def _children(ex, bound, rng=None):
     return out
 
 
-def explore(run, root, bound, visit, shard=(0, 1), expired=None, rng=None):
+def explore(run, root, bound, visit, shard=(0, 1), expired=None, rng=None, min_step=0):
     """Visit every schedule with <= ``bound`` preemptions that extends deviation list ``root``.
 
     run(deviations) -> Execution ; visit(Execution) is called once per schedule of this shard.
-    The root execution itself belongs to shard residue 0.  Returns (#executions run, complete?).
+    The root execution itself belongs to shard residue 0.  ``min_step``: decisions before this step are
+    fixed by the root (used when the choice of the starting thread is itself a shard coordinate).
+    Returns (#executions run, complete?).
     """
     r, m = shard
     ex0 = run(list(root))
@@ -532,7 +536,7 @@ def explore(run, root, bound, visit, shard=(0, 1), expired=None, rng=None):
     nrun = 1
     if r == 0:
         visit(ex0)
-    stack = [d for d in _children(ex0, bound, rng) if d[-1][0] % m == r]
+    stack = [d for d in _children(ex0, bound, rng, min_step) if d[-1][0] % m == r]
     stack.reverse()
     while stack:
         if expired is not None and expired():
